@@ -338,8 +338,8 @@ namespace {
         static Parties P;
         std::vector<int> kinds((size_t) n, PARTY_TASK);
         P.launch(kinds, [](int i) { controller(i); });
-        sim_quiesce(2000000);
         while (!P.all_finished()) main_pause();
+        sim_quiesce(2000000);
         pika::wait();    // detached threads
         for (int i = 0; i < n; i++)
         {
